@@ -14,7 +14,7 @@ from allmydata import hashtree
 from allmydata.hashtree import BadHashError, NotEnoughHashesError
 
 B = hlib.bounds()
-NOTES = [M.MODEL_NOTE]
+NOTES = [M.MODEL_NOTE, M.B32_NOTE]
 M.install(hashtree)
 hlib.encoded(hashtree.HashTree.__init__, hashtree.IncompleteHashTree.__init__, hashtree.IncompleteHashTree.set_hashes,
              hashtree.IncompleteHashTree.needed_hashes, hashtree.HashTree.needed_hashes,
@@ -50,6 +50,14 @@ def _relevant(n, leaf):
     return set(path) | set(sibs) | {0}
 
 
+def _real(x, lo, hi):
+    """realise a small symbolic int (it is used as a dict key / list index anyway)"""
+    for c in range(lo, hi):
+        if x == c:
+            return c
+    raise hlib.HarnessError("value outside its precondition range")
+
+
 # ---- symbolic pre-state ---------------------------------------------------------------------
 
 def _closed(n, X):
@@ -57,8 +65,19 @@ def _closed(n, X):
     are {root} + children of expanded nodes, where an expanded non-root node has an expanded parent
     (a node is only ever validated together with its sibling, against its parent)."""
     w = _width(n)
+    xs = B.get("xs")
+    if xs is not None:
+        for i in range(7):
+            if X[i] != (i in xs):
+                return False
+    onpath = None
+    if B.get("onpath") and B.get("focus") is not None:
+        # wide trees: only the internal nodes above the focus leaf may be expanded (expansions elsewhere
+        # do not interact with the nodes that can be supplied in this case)
+        path, _sibs = _chain(n, B["focus"])
+        onpath = set((x - 1) // 2 for x in path)
     for i in range(7):
-        if i >= w - 1:
+        if i >= w - 1 or (onpath is not None and i not in onpath):
             if X[i]:
                 return False
         elif i > 0 and X[i] and not X[(i - 1) // 2]:
@@ -134,10 +153,11 @@ def _family(iht):
 def h_build(n: int, l0: int, l1: int, l2: int, l3: int, l4: int, l5: int, l6: int, l7: int) -> bool:
     """
     pre: 1 <= n <= B["n_max"]
-    pre: _leaves_ok(n, [l0, l1, l2, l3, l4, l5, l6, l7])
+    pre: _leaves_ok(B["n_max"], [l0, l1, l2, l3, l4, l5, l6, l7])
     post: _ == True
     """
     L = [l0, l1, l2, l3, l4, l5, l6, l7]
+    n = _real(n, 1, B["n_max"] + 1)
     gen = hashtree.HashTree([M.sym(L[j], LT) for j in range(n)])
     want = M.model_tree([L[j] for j in range(n)])
     if len(gen) != len(want):
@@ -172,9 +192,9 @@ def h_sound(n: int, x0: bool, x1: bool, x2: bool, x3: bool, x4: bool, x5: bool, 
             s10: int, s11: int, s12: int, s13: int, s14: int, lf: int, lv: int) -> bool:
     """
     pre: n == B["n"]
-    pre: _closed(n, [x0, x1, x2, x3, x4, x5, x6])
-    pre: _leaves_ok(n, [l0, l1, l2, l3, l4, l5, l6, l7])
-    pre: _supplied_ok(n, [s0, s1, s2, s3, s4, s5, s6, s7, s8, s9, s10, s11, s12, s13, s14])
+    pre: _closed(B["n"], [x0, x1, x2, x3, x4, x5, x6])
+    pre: _leaves_ok(B["n"], [l0, l1, l2, l3, l4, l5, l6, l7])
+    pre: _supplied_ok(B["n"], [s0, s1, s2, s3, s4, s5, s6, s7, s8, s9, s10, s11, s12, s13, s14])
     pre: -1 <= lf < n and (B.get("focus") is None or lf in (-1, B["focus"]))
     pre: (lf == -1 and lv == -1) or (lf >= 0 and 0 <= lv < VMAX)
     post: _ == True
@@ -182,6 +202,8 @@ def h_sound(n: int, x0: bool, x1: bool, x2: bool, x3: bool, x4: bool, x5: bool, 
     X = [x0, x1, x2, x3, x4, x5, x6]
     L = [l0, l1, l2, l3, l4, l5, l6, l7]
     S = [s0, s1, s2, s3, s4, s5, s6, s7, s8, s9, s10, s11, s12, s13, s14]
+    n = B["n"]
+    lf = _real(lf, -1, n)
     gen, iht = _mk(n, X, L)
     before = list(iht)
     hashes = {}
@@ -212,6 +234,11 @@ def h_sound(n: int, x0: bool, x1: bool, x2: bool, x3: bool, x4: bool, x5: bool, 
             return "a previously validated node was dropped"
         if i in hashes and iht[i] is None:
             return "accepted, but a supplied hash was not remembered"
+        if i in hashes and not (S[i] == gen[i].v):
+            # (observed quirk, not contrary to the property: an EMPTY byte string supplied for an internal node is
+            # treated as "no value" and silently replaced by the hash computed from its children)
+            if i >= iht.first_leaf_num or not (S[i] == 0):
+                return "accepted a supplied hash that differs from the genuine node"
     if lf != -1:
         got = iht.get_leaf(lf)
         if got is None or not (got.v == L[lf]) or not (lv == L[lf]):
@@ -258,13 +285,16 @@ def h_complete(n: int, x0: bool, x1: bool, x2: bool, x3: bool, x4: bool, x5: boo
                a: int, b: int, split_a: bool, split_b: bool) -> bool:
     """
     pre: n == B["n"]
-    pre: _closed(n, [x0, x1, x2, x3, x4, x5, x6])
-    pre: _leaves_ok(n, [l0, l1, l2, l3, l4, l5, l6, l7])
-    pre: 0 <= a < n and 0 <= b < n
+    pre: _closed(B["n"], [x0, x1, x2, x3, x4, x5, x6])
+    pre: _leaves_ok(B["n"], [l0, l1, l2, l3, l4, l5, l6, l7])
+    pre: 0 <= a < n and 0 <= b < n and (B.get("focus") is None or a == B["focus"])
     post: _ == True
     """
     X = [x0, x1, x2, x3, x4, x5, x6]
     L = [l0, l1, l2, l3, l4, l5, l6, l7]
+    n = B["n"]
+    a = _real(a, 0, n)
+    b = _real(b, 0, n)
     gen, iht = _mk(n, X, L)
     for leaf, split in ((a, split_a), (b, split_b)):
         held = set(i for i in range(len(iht)) if iht[i] is not None)
@@ -285,14 +315,17 @@ def h_badnum(n: int, x0: bool, x1: bool, x2: bool, l0: int, l1: int, l2: int, l3
              i1: int, v1: int, i2: int, v2: int) -> bool:
     """
     pre: n == B["n"] and n <= 4
-    pre: _closed(n, [x0, x1, x2, False, False, False, False])
-    pre: _leaves_ok(n, [l0, l1, l2, l3, 1, 1, 1, 1])
-    pre: -2 <= i1 <= 2 * _width(n) and -2 <= i2 <= 2 * _width(n) and i1 != i2
+    pre: _closed(B["n"], [x0, x1, x2, False, False, False, False])
+    pre: _leaves_ok(B["n"], [l0, l1, l2, l3, 1, 1, 1, 1])
+    pre: -2 <= i1 <= 2 * _width(B["n"]) and -2 <= i2 <= 2 * _width(B["n"]) and i1 != i2
     pre: 0 <= v1 < VMAX and 0 <= v2 < VMAX
     post: _ == True
     """
+    n = B["n"]
     gen, iht = _mk(n, [x0, x1, x2, False, False, False, False], [l0, l1, l2, l3, 1, 1, 1, 1])
     size = len(iht)
+    i1 = _real(i1, -2, 2 * _width(n) + 1)
+    i2 = _real(i2, -2, 2 * _width(n) + 1)
     assume(not (0 <= i1 < size and 0 <= i2 < size))      # at least one hash number outside the tree
     before = list(iht)
     hashes = {i1: M.sym(v1, VT), i2: M.sym(v2, VT)}
@@ -302,6 +335,16 @@ def h_badnum(n: int, x0: bool, x1: bool, x2: bool, l0: int, l1: int, l2: int, l3
         if isinstance(e, hlib.HarnessError):
             raise
         if not _unchanged(before, iht):
+            if isinstance(e, IndexError) and "indexerror-no-rollback" in EXCLUDED:
+                # known-finding mode: still require that nothing but the positions named in this call changed
+                for i in range(size):
+                    if not M.same(before[i], iht[i]) and i not in (i1, i2, i1 + size, i2 + size):
+                        return "IndexError, and a node not named in the call changed"
+                return True
             return "rejected (%s), but the tree state changed" % type(e).__name__
         return True
     return "a hash number outside the tree was accepted"
+
+
+EXCLUDED = []
+CLASSIFY = {"h_badnum": lambda *a: "indexerror-no-rollback"}
